@@ -178,3 +178,24 @@ func (e *Env) ResetCalls()           { e.W.Calls = nil; e.W.NCalls = 0 }
 func (e *Env) FailAt(k int)          { e.W.FailAt = k }
 func (e *Env) NCalls() int           { return e.W.NCalls }
 func (e *Env) FailureInjected() bool { return e.W.Failed }
+
+// EventMark / SameEvents: the events (the module's and the bank's) emitted through this environment's context between two marks.
+func (e *Env) EventMark() int { return len(e.sctx.EventManager().Events()) }
+
+func SameEvents(a *Env, a0, a1 int, b *Env, b0, b1 int) bool {
+	ea, eb := a.sctx.EventManager().Events()[a0:a1], b.sctx.EventManager().Events()[b0:b1]
+	if len(ea) != len(eb) {
+		return false
+	}
+	for i := range ea {
+		if ea[i].Type != eb[i].Type || len(ea[i].Attributes) != len(eb[i].Attributes) {
+			return false
+		}
+		for j := range ea[i].Attributes {
+			if ea[i].Attributes[j].Key != eb[i].Attributes[j].Key || ea[i].Attributes[j].Value != eb[i].Attributes[j].Value {
+				return false
+			}
+		}
+	}
+	return true
+}
